@@ -3,6 +3,7 @@ package props
 import (
 	"encoding/json"
 	"fmt"
+	"os"
 	"sort"
 	"strconv"
 	"strings"
@@ -94,6 +95,9 @@ func complete(text []byte, src *formula.SourceCode) string {
 func checkTotal(text []byte, limit time.Duration) (msg string, class string) {
 	var out obs.ParseOut
 	if !obs.WithTimeout(limit, func() { out = obs.Parse(text) }) {
+		if obs.Runaway {
+			return fmt.Sprintf("ParseSourceCode did not return on %d bytes and kept allocating: more than %d GiB of live heap when it was given up", len(text), obs.RunawayBytes>>30), "hang"
+		}
 		return fmt.Sprintf("ParseSourceCode did not return within %v on %d bytes", limit, len(text)), "hang"
 	}
 	if out.Panic != nil {
@@ -433,6 +437,13 @@ func TestC01Shapes(t *testing.T) {
 		run.Count(true, "")
 		if msg := checkShape(c); msg != "" {
 			run.Fail("c01-shape", c, msg)
+			if strings.Contains(msg, "did not return") {
+				// the parse is still running (and possibly allocating) in its goroutine: nothing measured after this
+				// would mean anything
+				run.End(t)
+				fmt.Println("HANG: shape", c.Name)
+				os.Exit(1)
+			}
 		}
 		timings = append(timings, fmt.Sprintf("%s=%v", sh.name, timeParse(sh.make(64<<10), 1).Round(100*time.Microsecond)))
 	}
